@@ -34,10 +34,11 @@ def profile(prop, tier):
                  clients=["designer", "writer", "synth", "sequencer", "reader"] + ([] if q else ["scanner8"]),
                  heaps=[100000], k_weights=[(1, 2), (2, 4), (3, 4), (4, 2), (5, 1)], max_ops=(20, 50))
     elif prop == "C09":
-        p.update(faults=["NONE", "SUB", "INS", "DEL", "MULTI", "BURST", "TRUNC", "EXTEND", "FOREIGN", "RANDOM"],
+        p.update(faults=["NONE", "SUB", "INS", "DEL", "MULTI", "BURST", "TRUNC", "EXTEND", "FOREIGN", "RANDOM", "MASSIVE"],
                  fault_weights={"NONE": 4})
     elif prop == "C10":
-        p.update(faults=["NONE", "SUB", "INS", "DEL", "MULTI", "BURST", "TRUNC", "EXTEND", "RANDOM", "FIRST", "LASTWIN"],
+        p.update(faults=["NONE", "SUB", "INS", "DEL", "MULTI", "BURST", "TRUNC", "EXTEND", "RANDOM", "FIRST", "LASTWIN",
+                         "MASSIVE"],
                  fault_weights={"FIRST": 3, "LASTWIN": 3, "RANDOM": 2, "MULTI": 2, "BURST": 2},
                  meta=["CHECK_CORRUPT", "CHECK_MISROUTED", "CHECK_ABSENT", "START_MISROUTED", "GRAPH_SKEW"])
     return p
@@ -57,6 +58,7 @@ class Config(object):
         if "NONE" in prof["faults"] and "NONE" not in enabled and rng.random() < 0.7:
             enabled.append("NONE")
         self.fault_weights = [(f, prof["fault_weights"].get(f, 1)) for f in enabled]
+        self._prof_faults = prof["faults"]
         self.meta = [m for m in prof["meta"] if rng.random() < 0.5]
         self.msg_max = rng.choice([8, 24, prof["msg_max"]])
         self.strand_max = rng.choice([max(12, 6 * self.k + 6), 40, prof["strand_max"]])
@@ -65,13 +67,19 @@ class Config(object):
         self.check_share = rng.choice([0.0, 0.4, 0.8])
         self.lag_pref = rng.choice([None, None, "zero", "max", "undetectable"])
         self.mixed_k = rng.random() < 0.3
+        self.long_strands = prof["prop"] in ("C08", "C09", "C10", "C06") and rng.random() < 0.04
+        if self.long_strands:
+            if "MASSIVE" in self._prof_faults and "MASSIVE" not in [f for f, _ in self.fault_weights]:
+                self.fault_weights.append(("MASSIVE", 3))
+            self.mixed_k = True
+            self.max_ops = min(self.max_ops, 30)
 
     def as_dict(self):
         return {"k": self.k, "max_ops": self.max_ops, "n_designs": self.n_designs,
                 "populations": [p for p, _ in self.populations], "faults": [f for f, _ in self.fault_weights],
                 "meta": self.meta, "msg_max": self.msg_max, "strand_max": self.strand_max,
                 "fast_share": self.fast_share, "table_share": self.table_share, "check_share": self.check_share,
-                "lag_pref": self.lag_pref, "mixed_k": self.mixed_k}
+                "lag_pref": self.lag_pref, "mixed_k": self.mixed_k, "long_strands": self.long_strands}
 
 
 class Molecule(object):
@@ -217,6 +225,9 @@ class Synth(Client):
         n = rng.randint(lo, max(lo, cfg.strand_max))
         if sim.prop != "C08" and rng.random() < 0.15:
             n = rng.choice([k, k + 1, 2 * k, 2 * k + 1])
+        if cfg.long_strands and rng.random() < 0.5:
+            n = rng.choice([255, 256, 257, 400, 511, 512, 513, 600, 700])     # word / buffer boundaries, many-error reads
+            sim.stats.inc("probes", "pool:long-strand")
         strand = M.random_walk(rng, design.rows, start, n)
         if strand is None:
             # dead end: keep the walkable prefix if it is long enough
@@ -298,6 +309,13 @@ class Sequencer(Client):
             faults = ["MULTI"]
         elif kind == "BURST":
             edits, faults = F.dense_edits(rng, w, k, rng.randint(2, 5), burst=True), ["BURST"]
+        elif kind == "MASSIVE":
+            # tens of separated errors on one long read (the candidate product explodes; the heap guard must hold)
+            m = rng.randint(30, 90) if n >= 300 else rng.randint(4, 8)
+            gap = max(2 * k + 2, n // (m + 1))
+            pos = [p for p in range(k + 1, n - k, gap)][:m]
+            edits = [F.make_edit(rng, w, p, "S" if rng.random() < 0.8 else None) for p in pos]
+            faults = ["MASSIVE"] if n >= 300 else ["MULTI"]
         if edits:
             read = M.apply_edits(w, edits)
         if kind == "TRUNC":
@@ -417,8 +435,20 @@ class Scanner(Client):
         design = sim.world.designs[mol.design]
         strand = mol.strand[:rng.choice([len(mol.strand), 1, 2, 3, design.k, 40])]
         ns = sorted(set(rng.sample([1, 2, design.k + 1, 5, 12, 31, 32, 33, 40, 70], 3)))
-        return {"op": "VTSCAN", "design": mol.design, "start": mol.start, "strand": strand, "ns": ns,
-                "bit_length": len(mol.bits) if mol.bits is not None else 2 * len(strand)}
+        if rng.random() < 0.25:
+            # the formula clause on long strands (byte / word / power-of-4 boundaries); linear cost
+            n = rng.choice([255, 256, 257, 1023, 1024, 1025, 2047, 2048, 4095, 4096, 4097]) + rng.choice([0, 0, 1, 7])
+            body = "".join(rng.choice(M.NT) for _ in range(n)) if rng.random() < 0.7 else \
+                "".join(rng.choice("TGCA"[i % 4] + "A") for i in range(n))
+            self.sim.stats.inc("probes", "c07:long-strand-formula")
+            return {"op": "SETVT", "strand": body, "ns": ns + [rng.choice([2, 3, 4, 6])], "faults": []}
+        op = {"op": "VTSCAN", "design": mol.design, "start": mol.start, "strand": strand, "ns": ns,
+              "bit_length": len(mol.bits) if mol.bits is not None else 2 * len(strand)}
+        if rng.random() < 0.5 and len(strand) >= design.k:
+            # cross-traffic: reads of neighbouring molecules are repaired / decoded against their own checks first
+            op["traffic"] = rng.randint(1, 6)
+            op["tseed"] = rng.getrandbits(30)
+        return op
 
 
 class Scanner8(Client):
@@ -468,8 +498,34 @@ class Sim(object):
     def pool_event(self, rec):
         self.log.append(rec)
 
+    def run_huge(self):
+        """Thorough tier of C06, one run in ~1500: a single very long walk (payloads beyond 14 000 bits, where
+        decimal-string <-> int shortcuts and quadratic arithmetic break) decoded clean and with one foreign tail."""
+        rng = stream(self.seed, "huge")
+        k = rng.choice([1, 2])
+        self.log.append({"seed": self.seed, "prop": self.prop, "tier": self.tier, "config": "huge-strand"})
+        ops = [{"op": "DESIGN", "id": "D0", "kind": "rows", "k": k, "arcs": "1" * (4 ** (k + 1))}]
+        n = rng.randint(7150, 7400)
+        w = "".join(rng.choice(M.NT) for _ in range(n))
+        base = {"op": "READ", "mode": "decode", "design": "D0", "start": rng.randrange(4 ** k), "origin": w, "edits": [],
+                "fast": False, "table": None, "check": None, "bit_length": 2 * n}
+        ops.append(dict(base, read=w, faults=[]))
+        ops.append(dict(base, read=w[:-1] + "N", faults=["FOREIGN"]))
+        for op in ops:
+            rec = A.execute(op, self.world, self.ctx)
+            self.ops.append(op)
+            self.log.append({"i": len(self.ops) - 1, "op": dict(op, read=None, origin=None), "out": rec.get("out"),
+                             "res": rec.get("res")})
+            self.results.append([(rec.get("out") or {}).get("kind"), (rec.get("out") or {}).get("type"), rec.get("res")])
+            if self.ctx.violation is not None:
+                break
+        self.stats.inc("probes", "c06:huge-strand")
+        return self.ctx.violation
+
     def run(self):
         seams.begin_run(stream(self.seed, "rngseam"))
+        if self.tier == "thorough" and self.prop == "C06" and stream(self.seed, "huge?").random() < 1.0 / 1500:
+            return self.run_huge()
         self.log.append({"seed": self.seed, "prop": self.prop, "tier": self.tier, "config": self.cfg.as_dict()})
         clients = [CLIENTS[name](self) for name in self.prof["clients"]]
         idle = 0
